@@ -41,11 +41,17 @@ VehVectors == {<<a, b, c, d>> : a \in Edge, b \in Edge, c \in Edge, d \in {0, 1,
               \cup {n \o <<0>> : n \in StdVehicles} \cup {n \o <<1>> : n \in StdVehicles}
               \cup {<<Upper(n[1]) + 32, n[2], n[3], 0>> : n \in StdVehicles}          \* lower-cased first letter: not a built-in
 
+\* revisions of 10, 19, 20, 21, 25 and 40 digits (around the limits of 32- and 64-bit integers), with and without leading zeros
+Rep(n, c) == [i \in 1..n |-> c]
+LongRevisions == {<<48, 46, 55, 70>> \o Rep(n, 57) : n \in {10, 19, 20, 21, 25, 40}}
+                 \cup {<<48, 46, 55, 70>> \o Rep(n, 48) \o <<53>> : n \in {9, 20, 40}}
+                 \cup {<<48, 46, 55, 70, 49, 56, 52, 52, 54, 55, 52, 52, 48, 55, 51, 55, 48, 57, 53, 53, 49, 54, 49>> \o <<d>> : d \in {53, 54}}   \* 2^64 - 1, 2^64
+
 VARIABLES phase
 Init == phase = 1
 Next ==
   \/ /\ phase = 1 /\ phase' = 2
-     /\ \A s \in Strings(MaxLen) : LET p == GvParse(s) IN
+     /\ \A s \in Strings(MaxLen) \cup LongRevisions : LET p == GvParse(s) IN
           PrintT(<<"VAL", ToJson([t |-> "gv", in |-> s, ok |-> p.ok, minor |-> p.minor, patch |-> p.patch, steps |-> p.steps])>>)
   \/ /\ phase = 2 /\ phase' = 3
      /\ \A v \in Versions : PrintT(<<"VAL", ToJson([t |-> "ver", text |-> VerText(v[1], v[2], v[3]), key |-> KeyOf(v)])>>)
